@@ -20,224 +20,22 @@ import (
 
 	"github.com/google/wuffs/lib/rac"
 	"github.com/google/wuffs/lib/racvsched"
+
+	"verif/checks/c14/hist"
 )
 
-type Op struct {
-	Kind   string `json:"k"` // read seek seekrange close closenw
-	N      int    `json:"n,omitempty"`
-	Off    int64  `json:"off,omitempty"`
-	Whence int    `json:"wh,omitempty"`
-	Hi     int64  `json:"hi,omitempty"`
-}
+type (
+	Op         = hist.Op
+	Scenario   = hist.Scenario
+	CallResult = hist.CallResult
+	idReader   = hist.IDReader
+)
 
-type Scenario struct {
-	Name    string `json:"name"`
-	Chunks  int    `json:"chunks"`
-	CSize   int    `json:"csize"` // decompressed bytes per chunk (default 1)
-	Conc    int    `json:"conc"`
-	History []Op   `json:"history"`
-}
-
-type CallResult struct {
-	N    int    `json:"n"`
-	Pos  int64  `json:"pos"`
-	Data string `json:"data"`
-	Err  string `json:"err"` // "", "EOF", "error"
-}
-
-func errClass(err error) string {
-	if err == nil {
-		return ""
-	}
-	if err == io.EOF {
-		return "EOF"
-	}
-	return "error:" + err.Error()
-}
-
-// idCodec is an identity "compression" codec (a long codec id), so that an
-// execution does not pay for a zlib stream per chunk; the scheduling behaviour
-// of the concurrent reader does not depend on the codec.
-const idCodecID = rac.Codec(0x8000000000766964)
-
-type idWriter struct{}
-
-func (idWriter) Close() error            { return nil }
-func (idWriter) Clone() rac.CodecWriter  { return idWriter{} }
-func (idWriter) CanCut() bool            { return false }
-func (idWriter) WrapResource(raw []byte) ([]byte, error) { return raw, nil }
-func (idWriter) Cut(codec rac.Codec, encoded []byte, maxEncodedLen int) (int, int, error) {
-	return 0, 0, fmt.Errorf("no cut")
-}
-func (idWriter) Compress(p []byte, q []byte, resourcesData [][]byte) (rac.Codec, []byte, int, int, error) {
-	// one length byte, then the bytes (a chunk's CRange may extend past its data)
-	if len(p)+len(q) > 255 {
-		return 0, nil, 0, 0, fmt.Errorf("idCodec: chunk too long")
-	}
-	return idCodecID, append(append([]byte{byte(len(p) + len(q))}, p...), q...), rac.NoResourceUsed, rac.NoResourceUsed, nil
-}
-
-type idReader struct{ lim io.LimitedReader }
-
-func (*idReader) Close() error              { return nil }
-func (*idReader) Accepts(c rac.Codec) bool  { return c == idCodecID }
-func (*idReader) Clone() rac.CodecReader    { return &idReader{} }
-func (r *idReader) MakeDecompressor(racFile io.ReadSeeker, chunk rac.Chunk) (io.Reader, error) {
-	if _, err := racFile.Seek(chunk.CPrimary[0], io.SeekStart); err != nil {
-		return nil, err
-	}
-	var l [1]byte
-	if _, err := io.ReadFull(racFile, l[:]); err != nil {
-		return nil, err
-	}
-	r.lim.R, r.lim.N = racFile, int64(l[0])
-	return &r.lim, nil
-}
-
-func makeFile(chunks int, chunkSize int) (file, payload []byte) {
-	for i := 0; i < chunks*chunkSize; i++ {
-		payload = append(payload, byte('a'+i%26))
-	}
-	var buf bytes.Buffer
-	w := &rac.Writer{Writer: &buf, CodecWriter: idWriter{}, DChunkSize: uint64(chunkSize)}
-	if _, err := w.Write(payload); err != nil {
-		panic(err)
-	}
-	if err := w.Close(); err != nil {
-		panic(err)
-	}
-	return buf.Bytes(), payload
-}
-
-// model: bytes.Reader + limit
-type model struct {
-	data  []byte
-	pos   int64
-	limit int64
-}
-
-func (m *model) do(op Op) CallResult {
-	size := int64(len(m.data))
-	switch op.Kind {
-	case "read":
-		if m.pos >= m.limit {
-			return CallResult{Err: "EOF"}
-		}
-		n := int64(op.N)
-		if n > m.limit-m.pos {
-			n = m.limit - m.pos
-		}
-		d := m.data[m.pos : m.pos+n]
-		m.pos += n
-		return CallResult{N: int(n), Data: string(d)}
-	case "seek":
-		p := op.Off
-		switch op.Whence {
-		case io.SeekCurrent:
-			p += m.pos
-		case io.SeekEnd:
-			p += size
-		}
-		if p < 0 {
-			return CallResult{Err: "error"}
-		}
-		m.pos, m.limit = p, size
-		return CallResult{Pos: p}
-	case "seekrange":
-		if op.Off > op.Hi || op.Off < 0 {
-			return CallResult{Err: "error"}
-		}
-		m.pos = op.Off
-		m.limit = op.Hi
-		if m.limit > size {
-			m.limit = size
-		}
-		return CallResult{}
-	}
-	return CallResult{}
-}
-
-func runHistory(sc Scenario, file, payload []byte) (results []CallResult) {
-	r := &rac.Reader{ReadSeeker: bytes.NewReader(file), CompressedSize: int64(len(file)),
-		CodecReaders: []rac.CodecReader{&idReader{}}, Concurrency: sc.Conc}
-	for _, op := range sc.History {
-		var cr CallResult
-		switch op.Kind {
-		case "read":
-			buf := make([]byte, op.N)
-			n, err := r.Read(buf)
-			if n < 0 || n > len(buf) {
-				cr = CallResult{N: n, Err: "error:bad count"}
-			} else {
-				cr = CallResult{N: n, Data: string(buf[:n]), Err: errClass(err)}
-			}
-		case "seek":
-			p, err := r.Seek(op.Off, op.Whence)
-			cr = CallResult{Pos: p, Err: errClass(err)}
-		case "seekrange":
-			cr = CallResult{Err: errClass(r.SeekRange(op.Off, op.Hi))}
-		case "close":
-			cr = CallResult{Err: errClass(r.Close())}
-		case "closenw":
-			cr = CallResult{Err: errClass(r.CloseWithoutWaiting())}
-		}
-		results = append(results, cr)
-	}
-	return results
-}
-
-// compare returns "" or a description of the first disagreement with the model.
-func compare(sc Scenario, payload []byte, got []CallResult) string {
-	m := &model{data: payload, limit: int64(len(payload))}
-	for i, op := range sc.History {
-		if i >= len(got) {
-			return fmt.Sprintf("call %d (%s) never returned", i, op.Kind)
-		}
-		g := got[i]
-		if op.Kind == "close" || op.Kind == "closenw" {
-			if g.Err != "" {
-				return fmt.Sprintf("call %d: Close returned %q", i, g.Err)
-			}
-			continue
-		}
-		w := m.do(op)
-		gerr := g.Err
-		if strings.HasPrefix(gerr, "error") {
-			if w.Err == "error" {
-				return "" // both report an error: history ends
-			}
-			return fmt.Sprintf("call %d %+v: implementation error %q, model %+v", i, op, gerr, w)
-		}
-		if w.Err == "error" {
-			return fmt.Sprintf("call %d %+v: model reports an error, implementation returned %+v", i, op, g)
-		}
-		switch op.Kind {
-		case "read":
-			if g.N != w.N || g.Data != w.Data {
-				return fmt.Sprintf("call %d Read(%d): got n=%d %q, want n=%d %q", i, op.N, g.N, g.Data, w.N, w.Data)
-			}
-			atEnd := m.pos >= m.limit
-			switch {
-			case w.Err == "EOF" && gerr != "EOF":
-				return fmt.Sprintf("call %d Read(%d) at end: want (0, EOF), got (%d, %q)", i, op.N, g.N, gerr)
-			case w.Err == "" && gerr == "EOF" && !(atEnd && w.N > 0):
-				return fmt.Sprintf("call %d Read(%d): premature EOF", i, op.N)
-			}
-		case "seek":
-			if g.Pos != w.Pos {
-				return fmt.Sprintf("call %d Seek: got pos %d want %d", i, g.Pos, w.Pos)
-			}
-			if gerr != "" {
-				return fmt.Sprintf("call %d Seek(%d,%d): unexpected %q", i, op.Off, op.Whence, gerr)
-			}
-		case "seekrange":
-			if gerr != "" {
-				return fmt.Sprintf("call %d SeekRange(%d,%d): unexpected %q", i, op.Off, op.Hi, gerr)
-			}
-		}
-	}
-	return ""
-}
+var (
+	makeFile   = hist.MakeFile
+	runHistory = hist.RunHistory
+	compare    = hist.Compare
+)
 
 type Violation struct {
 	Kind     string   `json:"kind"`
